@@ -450,3 +450,27 @@ package contractcourt
 //@   site call encodeCommitSet: assert arg(1) == c
 //@   site call Put: assert arg(1) == commitSetKey && ret(encodeCommitSet) == nil
 //@   ensures result == nil ==> called(Put)
+//@
+//@ // ---- the chain watcher hands a confirmed close to the wallet and the arbitrator unchanged: the summary is built for the channel the
+//@ // ---- watcher watches, from the spend that was seen and the commitment / state number that was recognised, and the arbitrator
+//@ // ---- gets that summary together with the commit set the caller determined
+//@ func (c *chainWatcher) dispatchRemoteForceClose
+//@   props C12 C05
+//@   loop * havoc
+//@   site call NewUnilateralCloseSummary: assert arg(0) == c.cfg.chanState && arg(1) == c.cfg.signer && arg(2) == commitSpend &&
+//@        arg(3).CommitTx == remoteCommit.CommitTx && arg(3).CommitHeight == remoteCommit.CommitHeight && arg(3).Htlcs == remoteCommit.Htlcs &&
+//@        arg(3).FeePerKw == remoteCommit.FeePerKw && arg(4) == commitPoint
+//@   site alloc RemoteUnilateralCloseInfo: assert retn(NewUnilateralCloseSummary, 1) == nil
+//@   site store RemoteUnilateralCloseInfo.UnilateralCloseSummary: assert value == retn(NewUnilateralCloseSummary, 0)
+//@   site store RemoteUnilateralCloseInfo.CommitSet: assert value.ConfCommitKey == commitSet.ConfCommitKey && value.HtlcSets == commitSet.HtlcSets
+//@
+//@ func (c *chainWatcher) dispatchLocalForceClose
+//@   props C12 C05
+//@   loop * havoc
+//@   requires commitSpend != nil
+//@   site call NewLocalForceCloseSummary: assert arg(0) == c.cfg.chanState && arg(1) == c.cfg.signer && arg(2) == commitSpend.SpendingTx &&
+//@        arg(3) == wrap(commitSpend.SpendingHeight, 32) && arg(4) == stateNum
+//@   site alloc LocalUnilateralCloseInfo: assert retn(NewLocalForceCloseSummary, 1) == nil
+//@   site store LocalUnilateralCloseInfo.LocalForceCloseSummary: assert value == retn(NewLocalForceCloseSummary, 0)
+//@   site store LocalUnilateralCloseInfo.SpendDetail: assert value == commitSpend
+//@   site store LocalUnilateralCloseInfo.CommitSet: assert value.ConfCommitKey == commitSet.ConfCommitKey && value.HtlcSets == commitSet.HtlcSets
